@@ -859,6 +859,17 @@ pub fn run(c: &mut Ctx) {
         if !local_ok && strict && whole_min {
             report_f25(c, &z, &dbg, &dsp, &mut f25_reported);
         }
+        if !whole_min {
+            // theorem `DateTime_FixedOffset_with_seconds_rejected` (outside the property's side condition):
+            // whatever the time of day and the wall-clock year, `±hh:mm:ss` leaves `:ss` over -> Err(TooLong)
+            for (form, x) in [("Debug", &dbg), ("Display", &dsp)] {
+                c.count("dtf:offset-with-seconds-rejected-TooLong");
+                let got = rd_dtf(txt(x));
+                if got != "err TooLong" {
+                    c.fail(&format!("DateTime<FixedOffset> {} with a seconds offset: FromStr does not answer Err(TooLong)", form), &format!("{} text {:?} -> {}", sz(&z), txt(x), got));
+                }
+            }
+        }
         if strict && whole_min && local_ok {
             for (form, x) in [("Debug", &dbg), ("Display", &dsp)] {
                 let back = guard(|| txt(x).parse::<DateTime<FixedOffset>>().ok());
